@@ -128,6 +128,29 @@ static var f_sum(var args) {          /* called with a tuple: sum of c_int */
 }
 static bool by_desc(var a, var b) { return cmp(a, b) > 0; }
 
+/* body of a worker thread: container work, a collection-heavy loop, try/throw/catch; result through a
+   heap Int owned by the caller */
+static var thr_fn(var args) {
+  struct Int* res = get(args, $I(0));
+  int64_t n = c_int(get(args, $I(1))), k = c_int(get(args, $I(2)));
+  var a = new(Array, Int);
+  for (int64_t i = 0; i < n; i++) push(a, $I(imod(k * 7 + i * 13, 101)));
+  sort(a);
+  int64_t s = 0, j = 0;
+  foreach (x in a) { s += c_int(x) * (++j); }
+  var t = new(Table, String, Int);
+  for (int64_t i = 0; i < n; i++) { char b[64]; word(k + i, b); set(t, $S(b), $I(i)); }
+  s += 100000 * (int64_t)len(t);
+  for (int64_t i = 0; i < 200; i++) { var g = new(Int, $I(i)); s += c_int(g) % 3; }   /* garbage for the thread's collector */
+  volatile int64_t e = 0;
+  try {
+    if (imod(k, 2)) throw(ErrA, "in thread %i", $I(k));
+    e = 1000;
+  } catch (ex in ErrA) { e = 5000; }
+  res->val = s + e;
+  return NULL;
+}
+
 struct W { var R[NREG]; int64_t a[6]; int na; };
 
 static void thrower(int depth, int64_t which, int64_t k) {
@@ -253,6 +276,7 @@ static void op_exec(struct W* w, const char* op) {
     char b[64]; word(A(1), b);
     print_to(s, 0, "%i %s %i", $I(imod(A(0), 1000000)), $S(b), $I(imod(A(2), 100000)));   /* non-negative (F6) */
     var i1 = new(Int), i2 = new(Int), s1 = new(String);
+    resize(s1, 64);                     /* %s scans into the String's own buffer: the caller sizes it */
     int pos = scan_from(s, 0, "%i %s %i", i1, s1, i2);
     P("%d:%" PRId64 ",%s,%" PRId64, pos, c_int(i1), c_str(s1), c_int(i2));
     return;
@@ -260,6 +284,58 @@ static void op_exec(struct W* w, const char* op) {
   if (strcmp(op, "ca") == 0) {        /* Function objects */
     var r = call($(Function, f_sum), $I(A(0)), $I(A(1)), $I(A(2)));
     P("%" PRId64, c_int(r));
+    return;
+  }
+  if (strcmp(op, "th") == 0) {        /* two threads, each with its own collector and exception context */
+    var r1 = new(Int, $I(0)), r2 = new(Int, $I(0));
+    var n1 = new(Int, $I(imod(A(0), 40))), n2 = new(Int, $I(imod(A(1), 40)));
+    var k1 = new(Int, $I(A(2))), k2 = new(Int, $I(A(2) + 1));
+    var fn = $(Function, thr_fn);
+    var t1 = new(Thread, fn), t2 = new(Thread, fn);
+    call(t1, r1, n1, k1); call(t2, r2, n2, k2);
+    join(t1); join(t2);
+    P("%" PRId64 ",%" PRId64, c_int(r1), c_int(r2));
+    return;
+  }
+  if (strcmp(op, "mx") == 0) {        /* Mutex in one thread: lock/unlock, trylock, with */
+    var m = new(Mutex);
+    lock(m); int a = 1; unlock(m);
+    bool b = trylock(m); if (b) unlock(m);
+    int c = 0;
+    with (mm in m) { c += 1; }
+    with (mm in m) { c += 1; }
+    P("%d%d%d", a, (int)b, c);
+    return;
+  }
+  if (strcmp(op, "fl") == 0) {        /* File: formatted and raw writes, reopen in a with block, read back */
+    static int fcount = 0;
+    const char* dir = getenv("H_TMPDIR");
+    if (dir == NULL) { P("-"); return; }
+    char path[600]; snprintf(path, sizeof path, "%s/cw_%d_%d.tmp", dir, (int)getpid(), fcount++);
+    int n = 1 + (int)imod(A(0), 5);
+    var f = new(File, $S(path), $S("w"));
+    for (int i = 0; i < n; i++) {
+      char b[64]; word(A(1) + i, b);
+      print_to(f, 0, "%i %s\n", $I(imod(A(2) + i, 100000)), $S(b));
+    }
+    char raw[8] = { 'r', 0, 'a', (char)imod(A(1), 127), 0, 'w', '!', '\n' };
+    swrite(f, raw, sizeof raw);
+    sclose(f);
+    with (g in new(File, $S(path), $S("r"))) {
+      for (int i = 0; i < n; i++) {
+        var iv = new(Int), sv = new(String); resize(sv, 64);
+        scan_from(g, 0, "%i %s\n", iv, sv);
+        P("%" PRId64 ":%s ", c_int(iv), c_str(sv));
+      }
+      P("@%" PRId64 " ", stell(g));
+      char back[8]; memset(back, 'x', sizeof back);
+      size_t got = sread(g, back, sizeof back);
+      P("%zu:", got);
+      for (size_t i = 0; i < sizeof back; i++) P("%02x", (unsigned char)back[i]);
+      P(" eof=%d", (int)seof(g));
+      sseek(g, 0, SEEK_SET); P(" @%" PRId64, stell(g));
+    }
+    remove(path);
     return;
   }
   if (strcmp(op, "D") == 0) {         /* dump every register */
